@@ -25,6 +25,7 @@ type Options struct {
 	Overlay  map[string][]byte // file contents replacing / adding to what is on disk
 	Full     bool              // type-check every dependency from source (thorough tier)
 	Tests    bool
+	Dead     map[string]bool // full names of functions to leave out (helpers that package norm inlined everywhere)
 }
 
 // Loaded is a type-checked, SSA-built module.
@@ -206,6 +207,15 @@ func Load(opt Options) (*Loaded, error) {
 		}
 		if fn.Blocks == nil {
 			continue
+		}
+		if len(opt.Dead) > 0 {
+			o := fn
+			for o.Parent() != nil {
+				o = o.Parent()
+			}
+			if tf, ok := o.Object().(*types.Func); ok && opt.Dead[tf.FullName()] {
+				continue
+			}
 		}
 		l.SrcFuncs = append(l.SrcFuncs, fn)
 	}
